@@ -183,7 +183,9 @@ def shard(ctx):
     single = grammar.Layout(rng, ws='single', comments=0.0)
     while ctx.running():
         x = rng.random()
-        if x < 0.45:
+        if x < 0.12:
+            kind, text = 'bracketcross', hostile.bracket_cross(rng)
+        elif x < 0.45:
             kind, text = 'blocksoup', hostile.block_soup(rng)
         elif x < 0.6:
             kind, text = 'tokensoup', hostile.token_soup(rng, joiner=' ')
